@@ -321,7 +321,8 @@ def build():
              alts={"random_state": [lambda: 4, lambda: 0]}))
     add(Spec("CategoriesToIntegers",
              [lambda: mm.CategoriesToIntegers(), lambda: mm.CategoriesToIntegers(columns=["k0"], single=True),
-              lambda: mm.CategoriesToIntegers(skip_errors=True, remove=["k0=a"])],
+              lambda: mm.CategoriesToIntegers(skip_errors=True, remove=["k0=a"]),
+              lambda: mm.CategoriesToIntegers(columns="k1")],
              frame_data, lambda r: frame_data(r, n=12, cats=("u", "v", "w", "zz"), ncat=1, nnum=2), kind="frame",
              methods=["transform"], rowwise=["transform"],
              query=lambda rng, D: D["X"].iloc[:10],
